@@ -4,7 +4,8 @@ from __future__ import annotations
 import ast
 from typing import Dict, List, Optional, Set, Tuple
 
-from ..cfg import CFG
+from ..absint import eval_test
+from ..cfg import symbolic_block_paths, CFG
 from ..exprnorm import norm_test
 from ..report import Run
 from ..src import (AnalysisError, FuncInfo, Program, attr_chain, call_name, const_value, dotted,
@@ -209,114 +210,97 @@ def _merge(prog: Program, run: Run) -> None:
                 rd = t.id
     if rd is None:
         raise AnalysisError("_compute_available_objects: result dictionary not found")
-    prio: Dict[str, str] = {}
-    for x in ast.walk(il):
-        if isinstance(x, ast.Assign) and isinstance(x.targets[0], ast.Name) and \
-                "inheritance_priority" in ast.unparse(x.value):
-            src = ast.unparse(x.value)
-            if src.startswith(f"{rd}["):
-                prio[x.targets[0].id] = "orig"
-            elif src.startswith(pdl_e) or src.startswith(f"{pref}.layer"):
-                prio[x.targets[0].id] = "new"
-    if sorted(prio.values()) != ["new", "orig"]:
-        raise AnalysisError("_compute_available_objects: priority comparison operands not found")
-    newn = [k for k, v in prio.items() if v == "new"][0]
-    orign = [k for k, v in prio.items() if v == "orig"][0]
-    replace_txt = f"{rd}[{obj}.short_name] = ({obj}, {pdl_e})"
-
-    def action(body: List[ast.stmt]) -> str:
-        txt = [ast.unparse(s) for s in body]
-        if txt == ["continue"]:
-            return "keep"
-        if txt == [replace_txt, "continue"] or txt == [replace_txt]:
-            return "replace"
-        return "other:" + "; ".join(txt)[:80]
-    seen_rel: Dict[str, str] = {}
-    for x in ast.walk(il):
-        if isinstance(x, ast.If) and isinstance(x.test, ast.Compare) and len(x.test.ops) == 1:
-            l, r = ast.unparse(x.test.left), ast.unparse(x.test.comparators[0])
-            if {l, r} == {newn, orign}:
-                op = type(x.test.ops[0])
-                if l == orign:  # write as new ? orig
-                    op = {ast.Lt: ast.Gt, ast.Gt: ast.Lt, ast.LtE: ast.GtE, ast.GtE: ast.LtE}.get(
-                        op, op)
-                rel = {ast.Lt: "new<orig", ast.Gt: "new>orig", ast.LtE: "new<=orig",
-                       ast.GtE: "new>=orig", ast.Eq: "new==orig", ast.NotEq: "new!=orig"}[op]
-                seen_rel[rel] = action(x.body)
-    want_rel = {"new<orig": "keep", "new>orig": "replace"}
-    for rel, act in want_rel.items():
-        if seen_rel.get(rel) == act:
-            run.ok(R, C, f"name clash, {rel}: {act}", f"{f.module.rel}:{il.lineno}")
-        else:
-            run.violation(R, C, f"clash-{rel}",
-                          f"for a name clash with {rel} the merge must {act} the existing "
-                          f"object; found {seen_rel}", f"{f.module.rel}:{il.lineno}")
-    for rel in seen_rel:
-        if rel not in want_rel:
-            run.violation(R, C, f"clash-{rel}",
-                          f"unexpected priority test `{rel}` ({seen_rel[rel]}): equal priorities "
-                          "must reach the conflict handling", f"{f.module.rel}:{il.lineno}")
-    # first insertion
-    first = [x for x in ast.walk(il) if isinstance(x, ast.If) and norm_test(x.test) == norm_test(
-        ast.parse(f"{obj}.short_name not in {rd}", mode="eval").body)]
-    if first and action(first[0].body) == "replace":
-        run.ok(R, C, "an object whose name is new is added", f"{f.module.rel}:{first[0].lineno}")
-    else:
-        run.violation(R, C, "first-insertion",
-                      "an inherited object with a so far unknown name is not simply added",
-                      f"{f.module.rel}:{il.lineno}")
-    # equal priority: local override -> skip, equal objects -> skip, else error
+    # the names the layer defines locally
     ln = None
     for x in walk_no_nested(fn):
         if isinstance(x, ast.Assign) and isinstance(x.targets[0], ast.Name) and isinstance(
                 x.value, (ast.SetComp, ast.Call)) and "short_name" in ast.unparse(x.value) and \
                 not any(z is x for z in ast.walk(pl)):
             ln = x.targets[0].id
-    loc_t = [x for x in ast.walk(il) if isinstance(x, ast.If) and ln and norm_test(x.test) ==
-             norm_test(ast.parse(f"{obj}.short_name in {ln}", mode="eval").body) and
-             action(x.body) == "keep"]
-    eq_t = [x for x in ast.walk(il) if isinstance(x, ast.If) and isinstance(x.test, ast.Compare)
-            and isinstance(x.test.ops[0], ast.Eq) and {ast.unparse(x.test.left), ast.unparse(
-                x.test.comparators[0])} == {obj, f"{rd}[{obj}.short_name][0]"} and
-            action(x.body) == "keep"]
-    errs = [x for x in ast.walk(il) if isinstance(x, ast.Expr) and isinstance(x.value, ast.Call)
-            and call_name(x.value) == "odxraise"] + [x for x in ast.walk(il)
-                                                     if isinstance(x, ast.Raise)]
-    if loc_t:
-        run.ok(R, C, "equal priority: a local definition settles the clash",
-               f"{f.module.rel}:{loc_t[0].lineno}")
-    else:
-        run.violation(R, C, "local-override-settles",
-                      "a clash between equal-priority parents is not waived when the layer "
-                      "overrides the object locally", f"{f.module.rel}:{il.lineno}")
-    if eq_t:
-        run.ok(R, C, "equal priority: identical objects are no conflict",
-               f"{f.module.rel}:{eq_t[0].lineno}")
-    else:
-        run.violation(R, C, "equal-objects",
-                      "identical objects inherited twice are not recognised as conflict-free",
-                      f"{f.module.rel}:{il.lineno}")
-    if errs:
-        en = cfg.node_of(errs[0])
-        guards = {norm_test(t, negate=not p) for t, p in cfg.branch_conditions(en)}
-        # the error must be unreachable when any waiver applies
-        need = []
-        if first:
-            need.append(norm_test(first[0].test, negate=True))
-        for t in loc_t + eq_t:
-            need.append(norm_test(t.test, negate=True))
-        missing = [n for n in need if n not in guards]
-        if not missing:
-            run.ok(R, C, "an unsettled clash between unequal objects of equal priority is "
-                   "reported as an error", f"{f.module.rel}:{errs[0].lineno}")
+    # One iteration of the inner loop as a decision table: every combination of
+    # (name known?, priority ordering, locally overridden?, objects equal?) is evaluated on the
+    # symbolic paths of the loop body; the outcome is what the path does to the result
+    # dictionary (replace / keep) or whether it reports the conflict.
+    paths = symbolic_block_paths(il.body)
+    prio_new = {f"{pdl_e}.variant_type.inheritance_priority",
+                f"{pref}.layer.variant_type.inheritance_priority"}
+    prio_orig = {f"{rd}[{obj}.short_name][1].variant_type.inheritance_priority"}
+    for x in walk_no_nested(fn):
+        if isinstance(x, ast.Assign) and isinstance(x.targets[0], ast.Name):
+            src = ast.unparse(x.value)
+            if src in prio_new:
+                prio_new = prio_new | {x.targets[0].id}
+            elif src in prio_orig:
+                prio_orig = prio_orig | {x.targets[0].id}
+    replace_txt = f"{rd}[{obj}.short_name] = ({obj}, {pdl_e})"
+    replace_alt = f"{rd}[{obj}.short_name] = ({obj}, {pref}.layer)"
+
+    def outcome(p) -> str:
+        res = "keep"
+        for st in p.trace:
+            txt = ast.unparse(st)
+            if isinstance(st, ast.Raise) or (isinstance(st, ast.Expr) and isinstance(
+                    st.value, ast.Call) and call_name(st.value) == "odxraise"):
+                return "error"
+            if isinstance(st, (ast.Assign, ast.AugAssign)) and txt.startswith(f"{rd}["):
+                res = "replace" if txt in (replace_txt, replace_alt) else "other:" + txt[:70]
+            elif isinstance(st, ast.Delete) and f"{rd}[" in txt:
+                res = "other:" + txt[:70]
+        return res
+
+    def outcomes(known: bool, rel: str, local: bool, equal: bool) -> Set[str]:
+        env: Dict[str, object] = {f"{obj}.short_name in {rd}": known,
+                                  f"{obj} == {rd}[{obj}.short_name][0]": equal}
+        if ln:
+            env[f"{obj}.short_name in {ln}"] = local
+        for k in prio_new:
+            env[k] = {"lt": 1, "eq": 2, "gt": 3}[rel]
+        for k in prio_orig:
+            env[k] = 2
+        got = set()
+        for p in paths:
+            ok = True
+            for t, pol in p.conds:
+                v = eval_test(t, env)
+                if v is not None and v != pol:
+                    ok = False
+                    break
+            if ok:
+                got.add(outcome(p))
+        return got or {"error"}  # no path reaches the end of the iteration: it raises
+    classes = [
+        ("first-insertion", "an inherited object with a so far unknown name is added",
+         "replace", [(False, r_, l_, e_) for r_ in ("lt", "eq", "gt") for l_ in (False, True)
+                     for e_ in (False, True)]),
+        ("clash-new<orig", "name clash, the new parent has the lower priority: the existing "
+         "object is kept", "keep",
+         [(True, "lt", l_, e_) for l_ in (False, True) for e_ in (False, True)]),
+        ("clash-new>orig", "name clash, the new parent has the higher priority: the object is "
+         "replaced", "replace",
+         [(True, "gt", l_, e_) for l_ in (False, True) for e_ in (False, True)]),
+        ("local-override-settles", "equal priority: a local definition settles the clash",
+         "keep", [(True, "eq", True, e_) for e_ in (False, True)]),
+        ("equal-objects", "equal priority: identical objects are no conflict", "keep",
+         [(True, "eq", False, True)]),
+        ("no-conflict-error", "an unsettled clash between unequal objects of equal priority is "
+         "reported as an error", "error", [(True, "eq", False, False)]),
+    ]
+    for aspect, text, want, scen in classes:
+        wrong = []
+        for sc in scen:
+            got = outcomes(*sc)
+            if got != {want}:
+                wrong.append((sc, sorted(got)))
+        if not wrong:
+            run.ok(R, C, f"{text} ({len(scen)} scenario(s) of the decision table)",
+                   f"{f.module.rel}:{il.lineno}")
         else:
-            run.violation(R, C, "conflict-error-guards",
-                          f"the conflict error is not guarded by {missing}",
-                          f"{f.module.rel}:{errs[0].lineno}")
-    else:
-        run.violation(R, C, "no-conflict-error",
-                      "an unresolvable inheritance conflict is not reported",
-                      f"{f.module.rel}:{il.lineno}")
+            sc, got = wrong[0]
+            run.violation(R, C, aspect,
+                          f"expected `{want}` ({text}); for (name known={sc[0]}, new priority "
+                          f"{ {'lt': '<', 'eq': '==', 'gt': '>'}[sc[1]]} existing, locally "
+                          f"overridden={sc[2]}, objects equal={sc[3]}) one iteration of the merge "
+                          f"loop does {got}", f"{f.module.rel}:{il.lineno}")
     # (d) locals written after the parent loop
     lw = [x for x in walk_no_nested(fn) if isinstance(x, ast.For) and x is not pl and not any(
         z is x for z in ast.walk(pl)) and any(
